@@ -5,6 +5,16 @@ HERE = os.path.dirname(os.path.dirname(os.path.abspath(__file__)))
 
 # id -> (engine, category, technique, text, note)
 CHECKS = {
+ "C10": ("E3 shellsim closed loop (classic mode, guard off) + refmodel::classic", "exploration",
+         "model-based differential testing: generated closed-loop histories on the real shell in lock-step with an independent re-implementation of the reference algorithm",
+         "After every op of generated closed-loop histories (client datagrams of every kind incl. retransmit-flagged and critical-window, flushes, real SRTLA ACK / SRT ACK / NAK packets, housekeeping ticks, timeouts, REG3; any starting window vector) the link that received the datagram, every window, in-flight count and queue depth equal those of the reference model (first maximum of window/(in-flight+queued+1); +29 iff in-flight x 1000 > window; +1 per acked number on connected links; -100 per charged NAK; bounds; no tick changes).",
+         "Trusts refmodel::classic (written from the statement). Initial windows written directly (the statement quantifies over any vector). Flush timing read from the real queue. Held on what was explored.",
+         "5/C10"),
+ "C11": ("E2 selstate, enhanced mode", "exploration",
+         "property-based testing with an independent score recomputation (validity predicates with a 1e-9 float band): idempotence, hysteresis, cap, arg-max, factor ranges",
+         "On every enhanced-mode select of generated link-state histories: re-running selection returns the same link and previous:=result returns result; leaving a scored previous link needs >= 1.10 x its score; a capped link is never returned while an unconstrained link exists; the result is held or an arg-max of the independently recomputed scores (integer base x phase weight x quality x soft-cap x 0.02 gate); quality multiplier finite, in [0.35, 1.133], equal to the documented formula whenever refreshed, never older than 50 ms when used; soft-cap factor in [0.1, 1].",
+         "Uses the code's public in_flight_cap_exceeded as the definition of 'over its cap' and reads the multiplier actually used through a hook accessor. Held on what was explored.",
+         "5/C11"),
  "C03": ("E2 selstate (real select_connection_idx on real connections) + E3 shellsim decision tier (real handle_srt_packet)", "exploration",
          "property-based testing with a validity predicate: generated link-state histories and configs, every select checked 'usable link exists => Some'; shell tier with states produced by real packets incl. REG_ERR",
          "On every select of generated link-state histories (phases, receive age at the timeout edges, in-flight around thresholds, proof age, latch/pull history, weak/loss-degraded, CC target vs bitrate, quality history, every config setting, both modes) a link is returned whenever an independently computed usable link exists; the shell tier repeats the predicate on real handle_srt_packet decisions (datagram must be queued somewhere) with link states produced by real uplink packets, housekeeping and clock steps.",
